@@ -370,4 +370,41 @@ def runLoop (g : Guards) : Sess → List (LoadsOutcome × Env) → Sess
   | s, [] => s
   | s, (o, env) :: rest => runLoop g (loopStep g s o env).1 rest
 
+/-! ### … interleaved with what the local side does to the table of outstanding requests
+
+Between two messages the application may send requests and batches (`send_request`,
+`send_batch`: a new entry, awaited), a waiter may give up (`sent_request_timeout` or a
+cancellation: the future is cancelled *at once*, the entry stays listed - whether and when
+somebody removes it later is up to the caller), a future may be resolved by somebody else, and
+an entry may be removed from the table by the caller. -/
+
+inductive Ev where
+  /-- a framed message arrives -/
+  | msg (o : LoadsOutcome) (env : Env)
+  /-- the session sends a request (batch) under this key -/
+  | sent (k : Key)
+  /-- the waiter of the `i`-th listed entry gives up: its future is cancelled, the entry stays -/
+  | gaveUp (i : Nat)
+  /-- the future of the `i`-th listed entry is resolved by somebody else -/
+  | resolvedElsewhere (i : Nat)
+  /-- the `i`-th listed entry is removed from the table by the caller -/
+  | forgotten (i : Nat)
+  deriving DecidableEq, Repr
+
+def setFut (f : Fut) : Nat → List Entry → List Entry
+  | _, [] => []
+  | 0, en :: r => { en with fut := if en.fut = .pending then f else en.fut } :: r
+  | i + 1, en :: r => en :: setFut f i r
+
+def evStep (g : Guards) (s : Sess) : Ev → Sess
+  | .msg o env => (loopStep g s o env).1
+  | .sent k => { s with conn := { s.conn with out := s.conn.out ++ [{ key := k }] } }
+  | .gaveUp i => { s with conn := { s.conn with out := setFut .cancelled i s.conn.out } }
+  | .resolvedElsewhere i => { s with conn := { s.conn with out := setFut .finished i s.conn.out } }
+  | .forgotten i => { s with conn := { s.conn with out := s.conn.out.eraseIdx i } }
+
+def runEvents (g : Guards) : Sess → List Ev → Sess
+  | s, [] => s
+  | s, e :: rest => runEvents g (evStep g s e) rest
+
 end Aiorpcx.C05
